@@ -106,9 +106,31 @@ def shard_format(ctx, fmt, max_examples):
     drive(ctx, OBJ.st_object(fmt, big), body_factory(ctx.tmpdir), max_examples, name=f"rt_{fmt}")
 
 
+LARGE_SIZES = {"xyz": [9999, 10000, 12000], "pdb": [9999, 10000, 10001, 12000], "mol2": [9999, 10000, 12000]}
+
+
+def shard_large(ctx, fmt):
+    """One deterministic case per large size class, so that the quick tier also crosses the
+    five-digit boundaries of serial numbers (the random shards are capped at 1200 atoms)."""
+    import numpy as np
+
+    from . import c08
+
+    for natom in LARGE_SIZES[fmt]:
+        for variant in range(2):
+            spec = dict(c08.BASE_SPECS[fmt], natom=natom, payload_seed=ctx.seed % 1000 + variant,
+                        coord_cls=["wide", "boundary"][variant], title="large system")
+            if "nbond_frac" in spec:
+                spec["nbond_frac"] = [0.001, 1.0][variant]
+            problems, labels, written = check_case(spec, ctx.tmpdir)
+            ctx.record(spec, written, labels + ["large_deterministic"])
+            ctx.report(spec, problems, labels)
+    del np
+
+
 def shards(tier, seed):
     big = tier == "thorough"
-    out = []
+    out = [(f"large_{fmt}", "shard_large", {"fmt": fmt}) for fmt in LARGE_SIZES]
     for fmt in OBJ.ALL_FORMATS:
         n = 800 if big else 200
         if fmt in ("fcidump",):
